@@ -15,10 +15,31 @@ type GenCfg struct {
 	NoNilDist bool // never mark containers as nil
 	SubTick   bool // allow dates that are not tick aligned / not UTC
 	FullMsg   int  // percent chance that a message has every field set (0 = default mix)
+	Ladder    int  // 1/Ladder chance that a string / byte array / small-element array takes a threshold size
+	LadderMax int  // largest ladder size allowed (0 = all)
+}
+
+// sizeLadder holds lengths around the powers of two where buffers, fast paths and narrow
+// integer types change behaviour.
+var sizeLadder = []int{255, 256, 257, 1023, 1024, 1025, 4095, 4096, 4097}
+var sizeLadderBig = []int{65535, 65536, 65537}
+
+func (g *Gen) ladder() (int, bool) {
+	if g.Cfg.Ladder <= 0 || !g.R.Chance(1, g.Cfg.Ladder) {
+		return 0, false
+	}
+	l := sizeLadder[g.R.Intn(len(sizeLadder))]
+	if g.R.Chance(1, 12) {
+		l = sizeLadderBig[g.R.Intn(len(sizeLadderBig))]
+	}
+	if g.Cfg.LadderMax > 0 && l > g.Cfg.LadderMax {
+		return 0, false
+	}
+	return l, true
 }
 
 func DefaultCfg() GenCfg {
-	return GenCfg{MaxDepth: 3, MaxElems: 4, LongProb: 40, LongLen: 300, SubTick: true}
+	return GenCfg{MaxDepth: 3, MaxElems: 4, LongProb: 40, LongLen: 300, SubTick: true, Ladder: 30}
 }
 
 type Gen struct {
@@ -121,6 +142,13 @@ func (g *Gen) Type(t schema.Type, budget int) Value {
 		if t.Array.Prim == "byte" || t.Array.Prim == "uint8" {
 			if g.Cfg.LongProb > 0 && r.Chance(1, g.Cfg.LongProb) {
 				n = g.Cfg.LongLen
+			}
+			if l, ok := g.ladder(); ok {
+				n = l
+			}
+		} else if sz := schema.PrimSize(t.Array.Prim); sz > 0 && sz <= 8 {
+			if l, ok := g.ladder(); ok && l <= 300 {
+				n = l // 255/256/257 elements of a small scalar
 			}
 		}
 		if g.minOfType(*t.Array) > budget {
@@ -317,6 +345,13 @@ func (g *Gen) prim(p string) Value {
 
 func (g *Gen) str() []byte {
 	r := g.R
+	if l, ok := g.ladder(); ok {
+		b := r.Bytes(l)
+		for i := range b {
+			b[i] = 'a' + b[i]%26
+		}
+		return b
+	}
 	if g.Cfg.LongProb > 0 && r.Chance(1, g.Cfg.LongProb) {
 		b := r.Bytes(g.Cfg.LongLen)
 		for i := range b {
